@@ -17,6 +17,19 @@ def vec(info, lst):
     return np.asarray((lst * 4)[:info.n], float)
 
 
+# elements handed to the combinators during the current derivation (translation vectors, linear
+# terms, Bregman points and subgradients, multiplicands): caller-owned objects which the history
+# clauses of C07 modify in place afterwards
+DATA = []
+
+
+def _rec(e):
+    if len(DATA) > 64:
+        del DATA[:32]
+    DATA.append(e)
+    return e
+
+
 def _add(a, b):
     """Extended-real addition for reference values."""
     return a + b
@@ -34,7 +47,7 @@ def derive(kind, f, ref, cref, info):
     ident = lambda z: z
     if kind == 'translated':
         y = vec(info, _Y)
-        g = f.translated(info.elem(y))
+        g = f.translated(_rec(info.elem(y)))
         r = lambda z: ref(np.asarray(z) - y)
         c = None if cref is None else (lambda v: _add(cref(v), info.inner(v, y)))
         return dict(func=g, ref=r, cref=c, arg=lambda z: np.asarray(z) - y)
@@ -62,7 +75,7 @@ def derive(kind, f, ref, cref, info):
         u = None if kind == 'quadpert_nou' else vec(info, _Y)
         cst = 0.5
         g = odl.solvers.FunctionalQuadraticPerturb(
-            f, quadratic_coeff=a, linear_term=None if u is None else info.elem(u), constant=cst)
+            f, quadratic_coeff=a, linear_term=None if u is None else _rec(info.elem(u)), constant=cst)
         uu = np.zeros(info.n) if u is None else u
         r = lambda z: _add(ref(z), a * info.norm2(z) + info.inner(z, uu) + cst)
         c = None
@@ -78,7 +91,7 @@ def derive(kind, f, ref, cref, info):
     if kind == 'bregman':
         pt = vec(info, _PT)
         sg = vec(info, _SG)
-        g = odl.solvers.BregmanDistance(f, info.elem(pt), info.elem(sg))
+        g = odl.solvers.BregmanDistance(f, _rec(info.elem(pt)), _rec(info.elem(sg)))
         fpt = ref(pt)
         if not np.isfinite(fpt):
             raise NotImplementedError('base point outside the domain')
@@ -86,7 +99,7 @@ def derive(kind, f, ref, cref, info):
         return dict(func=g, ref=r, cref=None, arg=ident)
     if kind == 'rightvec':
         v = vec(info, _VEC)
-        g = f * info.elem(v)
+        g = f * _rec(info.elem(v))
         r = lambda z: ref(v * np.asarray(z))
         c = None if cref is None else (lambda y: cref(np.asarray(y) / v))
         return dict(func=g, ref=r, cref=c, arg=lambda z: v * np.asarray(z))
